@@ -22,15 +22,16 @@ def minDist (px py : Rat) (r : Box) : Rat :=
   (if px < r.minX then sq (px - r.minX) else if px > r.maxX then sq (px - r.maxX) else 0) +
   (if py < r.minY then sq (py - r.minY) else if py > r.maxY then sq (py - r.maxY) else 0)
 
-/-- geom.go `minMaxDist` -/
+/-- geom.go `minMaxDist` (as repaired by ef912a0: the nearer face `rm` and the farther face `rM` of each
+axis are told apart by their distances from `p`, not by the midpoint; each candidate is the direct
+sum of two squares, no `S − d1² + d2²`) -/
 def minMaxDist (px py : Rat) (r : Box) : Rat :=
-  let rmX := if px ≤ (r.minX + r.maxX) / 2 then r.minX else r.maxX
-  let rmY := if py ≤ (r.minY + r.maxY) / 2 then r.minY else r.maxY
-  let rMX := if px ≥ (r.minX + r.maxX) / 2 then r.minX else r.maxX
-  let rMY := if py ≥ (r.minY + r.maxY) / 2 then r.minY else r.maxY
-  let S := sq (px - rMX) + sq (py - rMY)
-  let dx := S - sq (px - rMX) + sq (px - rmX)
-  let dy := S - sq (py - rMY) + sq (py - rmY)
+  let rmX := if ratAbs (px - r.minX) ≤ ratAbs (px - r.maxX) then r.minX else r.maxX
+  let rmY := if ratAbs (py - r.minY) ≤ ratAbs (py - r.maxY) then r.minY else r.maxY
+  let rMX := if ratAbs (px - r.minX) ≥ ratAbs (px - r.maxX) then r.minX else r.maxX
+  let rMY := if ratAbs (py - r.minY) ≥ ratAbs (py - r.maxY) then r.minY else r.maxY
+  let dx := sq (px - rmX) + sq (py - rMY)
+  let dy := sq (py - rmY) + sq (px - rMX)
   if dy < dx then dy else dx
 
 /-- `dist < d` where `d` may still be `math.MaxFloat64` -/
